@@ -2346,9 +2346,21 @@ class StridedInterval:
         :param new_length: New length after zero-extension
         :return: A new StridedInterval
         """
-        si = self.copy()
-        si._bits = new_length
+        if self.is_empty or self.lower_bound <= self.upper_bound:
+            si = self.copy()
+            si._bits = new_length
+            return si
 
+        # an interval that wraps around 2**bits does not wrap in the wider space: extend its pieces and join them
+        pieces = []
+        for piece in self._ssplit():
+            if piece.lower_bound > piece.upper_bound:
+                # the piece beyond the south pole begins after the upper bound: it holds no member
+                continue
+            piece._bits = new_length
+            pieces.append(piece)
+        si = StridedInterval.least_upper_bound(*pieces)
+        si.uninitialized = self.uninitialized
         return si
 
     @reversed_processor
